@@ -124,6 +124,15 @@ def enable (lib : Lib) (mask : Nat) : Lib × Nat :=
 
 /-! ## `polyseed_create` -/
 
+/-- the seed `polyseed_create` builds in the fresh block (whose previous contents are `junk`)
+from the clock value `t` and the random bytes `rnd`. -/
+def createData (junk : Data) (seedFeatures t : Nat) (rnd : List Nat) : Data :=
+  let bytes := rnd.take SECRET_SIZE ++ List.replicate (SECRET_SIZE - rnd.length) 0
+  let secret := (bytes.set (SECRET_SIZE - 1) ((bytes.getD (SECRET_SIZE - 1) 0) &&& CLEAR_MASK))
+                  ++ List.replicate (SECRET_BUFFER_SIZE - SECRET_SIZE) 0
+  let d0 : Data := { junk with birthday := birthdayEncode t, features := seedFeatures, secret := secret }
+  { d0 with checksum := (polyEncode (0 :: dataToPoly d0)).headD 0 }
+
 def create (cfg : Cfg) (lib : Lib) (features : Nat) (w : World) : Res (Status × Option Nat) :=
   let seedFeatures := makeFeatures (features % 2 ^ 32)
   if !featuresSupported lib.reserved seedFeatures then ⟨lib, (.unsupported, none), [], w⟩ else
@@ -131,18 +140,11 @@ def create (cfg : Cfg) (lib : Lib) (features : Nat) (w : World) : Res (Status ×
   | (none, e, w1) => ⟨lib, (.memory, none), [e], w1⟩
   | (some (b, junk), e, w1) =>
     let t := w1.times.headD 0
-    let w2 := { w1 with times := w1.times.tail }
-    let rnd := w2.rands.headD []
-    let w3 := { w2 with rands := w2.rands.tail }
-    let bytes := rnd.take SECRET_SIZE ++ List.replicate (SECRET_SIZE - rnd.length) 0
-    let secret := (bytes.set (SECRET_SIZE - 1) ((bytes.getD (SECRET_SIZE - 1) 0) &&& CLEAR_MASK))
-                    ++ List.replicate (SECRET_BUFFER_SIZE - SECRET_SIZE) 0
-    let d0 : Data := { junk with birthday := birthdayEncode t, features := seedFeatures, secret := secret }
-    let poly := polyEncode (0 :: dataToPoly d0)
-    let d : Data := { d0 with checksum := poly.headD 0 }
-    ⟨lib.put b d, (.ok, some b),
+    let rnd := w1.rands.headD []
+    ⟨lib.put b (createData junk seedFeatures t rnd), (.ok, some b),
       [e, .time lib.deps.time t, .rand lib.deps.randbytes SECRET_SIZE rnd,
-       .zeroStack lib.deps.memzero .poly cfg.sizeofPoly], w3⟩
+       .zeroStack lib.deps.memzero .poly cfg.sizeofPoly],
+      { w1 with times := w1.times.tail, rands := w1.rands.tail }⟩
 
 /-! ## `polyseed_free` (`none` = NULL) -/
 
@@ -204,12 +206,16 @@ def decodeWipes (cfg : Cfg) (lib : Lib) : List Event :=
    .zeroStack lib.deps.memzero .words cfg.sizeofPhrase,
    .zeroStack lib.deps.memzero .poly cfg.sizeofPoly]
 
+/-- `poly.coeff[POLY_NUM_CHECK_DIGITS] ^= coin` -/
+def applyCoin (idx : List Nat) (coin : Nat) : List Nat :=
+  match idx with
+  | c0 :: c1 :: cs => c0 :: (c1 ^^^ coin) :: cs
+  | p => p
+
 /-- common tail of both decoders after the words were mapped to coefficients. -/
 def decodeFinish (cfg : Cfg) (lib : Lib) (idx : List Nat) (coin : Nat) (langOut : Option Nat)
     (pre : List Event) (w : World) : Res DecOut :=
-  let poly := match idx with
-    | c0 :: c1 :: cs => c0 :: (c1 ^^^ coin) :: cs
-    | p => p
+  let poly := applyCoin idx coin
   if !polyCheck poly then ⟨lib, ⟨.checksum, none, langOut⟩, pre ++ decodeWipes cfg lib, w⟩ else
   match doAlloc cfg lib w with
   | (none, e, w1) => ⟨lib, ⟨.memory, none, langOut⟩, pre ++ [e] ++ decodeWipes cfg lib, w1⟩
